@@ -186,9 +186,13 @@ Drop(b) ==
     /\ open' = [open EXCEPT ![b] = @ - 1]
     /\ UNCHANGED <<table, pool, stale, accepted, cur, cnt, hist>>
 
+\* (the guards come first so that the universes are only enumerated where they can apply)
+SetTableAny == cur.pc = "idle" /\ cnt.sets < MaxSets /\ \E t \in Tables : SetTable(t)
+CallStartAny == cur.pc = "idle" /\ cnt.calls < MaxCalls /\ \E c \in CallUniverse : CallStart(c)
+
 Next ==
-    \/ cur.pc = "idle" /\ cnt.sets < MaxSets /\ \E t \in Tables : SetTable(t)
-    \/ cur.pc = "idle" /\ cnt.calls < MaxCalls /\ \E c \in CallUniverse : CallStart(c)
+    \/ SetTableAny
+    \/ CallStartAny
     \/ Route \/ NotFound \/ Dial \/ Reuse
     \/ MsgToBackend \/ EofToBackend \/ MsgToCaller \/ Finish \/ Return
     \/ CleanupTick
